@@ -769,6 +769,112 @@ pub fn segment(s: &mut Session, sc: &mut Scene, r: &mut Rng, kind: &str, ch: u16
 	}
 }
 
+
+/// Pick-up order (theorem `pickup_order_users_first`): the caller creates a referenced resource and then its user
+/// at a point in the MIDDLE of `Renderer::on_start_processing` (hook effects on live tracks, see inject.rs).
+/// Whatever the point, a live user must find what it refers to in the same callback: a track routed to a new send
+/// track is never heard without its send contribution; a sound waiting for a new (started) clock is never cancelled.
+fn pickup_order_scenarios(s: &mut Session) {
+	use crate::inject::*;
+	use kira::clock::{ClockHandle, ClockSpeed};
+	use kira::sound::static_sound::StaticSoundHandle;
+	use kira::sound::PlaybackState;
+	#[derive(Default)]
+	struct Keep {
+		tracks: Vec<TrackHandle>,
+		sends: Vec<SendTrackHandle>,
+		clocks: Vec<ClockHandle>,
+		sounds: Vec<StaticSoundHandle>,
+	}
+	let points = ["effect on a live sub-track", "effect on a live send track", "effect on the main track"];
+	let scens = ["add send track S; add sub-track T routed to S at 0 dB; T.play(constant 0.25)", "add clock c; c.start(); main.play(sound starting at c's time 0)", "add clock c; c.start(); add sub-track T; T.play(sound starting at c's time 0)"];
+	for (pi, point) in points.iter().enumerate() {
+		for (si, scen) in scens.iter().enumerate() {
+			for b in [1usize, 4, 8] {
+				let hook = Hook::default();
+				let main = if pi == 2 { MainTrackBuilder::new().with_effect(HookFxBuilder(hook.clone())) } else { MainTrackBuilder::new() };
+				let (m, r) = shared_manager(1000, b, main);
+				let keep: Arc<Mutex<Keep>> = Arc::default();
+				match pi {
+					0 => {
+						let t = m.lock().unwrap().add_sub_track(TrackBuilder::new().with_effect(HookFxBuilder(hook.clone()))).unwrap();
+						keep.lock().unwrap().tracks.push(t);
+					}
+					1 => {
+						let t = m.lock().unwrap().add_send_track(SendTrackBuilder::new().with_effect(HookFxBuilder(hook.clone()))).unwrap();
+						keep.lock().unwrap().sends.push(t);
+					}
+					_ => {}
+				}
+				let warm = callback(&r, b, 2);
+				let desc = format!("internal buffer {b}; in the next callback's on_start_processing, from an {point}: {scen}; then 5 callbacks of {b} frames");
+				if warm.iter().any(|x| *x != 0.0) {
+					s.fail(desc.clone(), "warm-up callback not silent".into(), None);
+				}
+				*hook.lock().unwrap() = Some(Box::new({
+					let m = m.clone();
+					let keep = keep.clone();
+					move || {
+						let mut m = m.lock().unwrap();
+						let mut k = keep.lock().unwrap();
+						match si {
+							0 => {
+								let send = m.add_send_track(SendTrackBuilder::new()).unwrap();
+								let mut t = m.add_sub_track(TrackBuilder::new().with_send(&send, 0.0)).unwrap();
+								t.play(Dc(0.25)).unwrap();
+								k.sends.push(send);
+								k.tracks.push(t);
+							}
+							1 | _ => {
+								let mut c = m.add_clock(ClockSpeed::TicksPerSecond(10.0)).unwrap();
+								c.start();
+								let data = sound_from_frames(1000, vec![Frame::from_mono(0.25); 64]).start_time(c.time());
+								if si == 1 {
+									let h = m.play(data).unwrap();
+									k.sounds.push(h);
+								} else {
+									let mut t = m.add_sub_track(TrackBuilder::new()).unwrap();
+									let h = t.play(data).unwrap();
+									k.sounds.push(h);
+									k.tracks.push(t);
+								}
+								k.clocks.push(c);
+							}
+						}
+					}
+				}));
+				let mut heard = false;
+				let mut bad = None;
+				for n in 0..5 {
+					let out = callback(&r, b, 2);
+					for (i, x) in out.iter().enumerate() {
+						let ok = if si == 0 { *x == 0.0 || *x == 0.5 } else { *x == 0.0 || *x == 0.25 };
+						if !ok && bad.is_none() {
+							bad = Some(format!("callback {n}, sample {i}: {x:?} (a track heard without its send route gives 0.25, with it 0.5)"));
+						}
+						heard |= *x != 0.0;
+					}
+					if si > 0 {
+						if let Some(h) = keep.lock().unwrap().sounds.first() {
+							if h.state() == PlaybackState::Stopped && !heard && bad.is_none() {
+								bad = Some(format!("callback {n}: the sound was cancelled (Stopped) although its clock exists and was started before it"));
+							}
+						}
+					}
+				}
+				s.eval_only("pickup_order_scenario");
+				if hook.lock().unwrap().is_some() {
+					s.fail(desc.clone(), "the hook never ran".into(), None);
+				} else if let Some(w) = bad {
+					s.fail(desc.clone(), w, None);
+				} else if !heard {
+					s.fail(desc.clone(), "the new resource never became audible".into(), None);
+				}
+			}
+		}
+	}
+}
+
 pub fn run(args: &Args) {
 	let mut rng = Rng::new(args.seed ^ 0xC02);
 	let n: u64 = (if args.thorough { 6000 } else { 700 }) * args.budget_mul;
@@ -979,6 +1085,7 @@ pub fn run(args: &Args) {
 			}
 		}
 	}
+	pickup_order_scenarios(&mut s);
 	s.notes.push("probe values are dyadic: every mixer float operation is exact, so the model runs on integers scaled by 2^24 (Run.v header)".into());
 	s.finish();
 }
